@@ -17,7 +17,9 @@ RULE = ("pairs/lists of events on a small ms grid (any order, overlaps, zero/neg
         "hours around a transition; signature = (data-equal, sign(s2-s1), sign(s2-(e1+p)), sign(d1), sign(e2-e1)) "
         "per pair, merge-decision string per list")
 ASSUMPTIONS = ["pulsetimes are generated so that timedelta(seconds=p) is exact at µs",
-               "data equality is Python dict equality on data drawn from pools without 1/1.0/True ambiguity"]
+               "data equality is Python equality of the data objects (as the code under test compares them): pools avoid the "
+               "1/1.0/True ambiguity, and include tuple-vs-list and int-vs-str-key partners that are unequal although they "
+               "would serialise to the same JSON"]
 
 
 def plan(tier):
@@ -25,8 +27,56 @@ def plan(tier):
                 time_s=25 if tier == "quick" else 400)
 
 
+class Data:
+    """An event's data compared the way the statement means it: Python equality of the data objects themselves
+    (a tuple is not a list, an int key is not a str key). Canonical JSON is only used to print it."""
+
+    def __init__(self, data):
+        self.data = copy.deepcopy(data)
+
+    def __eq__(self, other):
+        return isinstance(other, Data) and self.data == other.data
+
+    def __ne__(self, other):
+        return not self.__eq__(other)
+
+    __hash__ = None
+
+    def __repr__(self):
+        return canon(_printable(self.data))
+
+
+def _printable(x):
+    if isinstance(x, dict):
+        return {(k if isinstance(k, str) else f"<{type(k).__name__} key {k!r}>"): _printable(v) for k, v in x.items()}
+    if isinstance(x, tuple):
+        return {"<tuple>": [_printable(v) for v in x]}
+    if isinstance(x, list):
+        return [_printable(v) for v in x]
+    return x
+
+
+def _materialise(x):
+    """case data is JSON; {"$tuple": [...]} and {"$intkeys": {...}} stand for values JSON cannot carry"""
+    if isinstance(x, dict):
+        if set(x) == {"$tuple"}:
+            return tuple(_materialise(v) for v in x["$tuple"])
+        if set(x) == {"$intkeys"}:
+            return {int(k): _materialise(v) for k, v in x["$intkeys"].items()}
+        return {k: _materialise(v) for k, v in x.items()}
+    if isinstance(x, list):
+        return [_materialise(v) for v in x]
+    return x
+
+
+def _mk(spec):
+    e = mk_event(spec)
+    e.data = _materialise(e.data)
+    return e
+
+
 def _t(e):
-    return (dt_us(e.timestamp), td_us(e.duration), canon(e.data))
+    return (dt_us(e.timestamp), td_us(e.duration), Data(e.data))
 
 
 def _pulse_us(p):
@@ -111,6 +161,10 @@ def teardown(ctx):
 # ------------------------------------------------------------------ generator
 
 _DATA = [{}, {"label": "a"}, {"label": "b"}, {"label": "a", "n": [1, 2]}, {"app": "x", "title": "ü"}]
+# pairs that are unequal as Python data although they would print as the same JSON
+_NEAR = [({"tags": ["work", "py"]}, {"tags": {"$tuple": ["work", "py"]}}),
+         ({"m": {"1": "x"}}, {"m": {"$intkeys": {"1": "x"}}}),
+         ({"label": "a", "n": [1, 2]}, {"label": "a", "n": {"$tuple": [1, 2]}})]
 _PULSES_US = [0, 1, 999, 1000, 1500, 10**6, 5 * 10**6, 60 * 10**6, 10**9, 123457, 2 * 10**6 + 500000]
 
 
@@ -152,6 +206,10 @@ def gen_case(rng, ctx):
         d2 = rng.choice([0, 0, 1, 2, 4, 9, -1]) * unit + rng.choice([0, 0, 1, 999])
         x1 = rng.choice(_DATA)
         x2 = x1 if rng.random() < 0.7 else rng.choice(_DATA)
+        if rng.random() < 0.06:
+            x1, x2 = rng.choice(_NEAR)
+            if rng.random() < 0.5:
+                x1, x2 = x2, x1
         z1 = zone
         z2 = zone if rng.random() < 0.5 else None
         return dict(kind="pair", p=p, e1=dict(ts=base + s1 * unit, dur=d1, data=x1, zone=z1),
@@ -176,14 +234,14 @@ def gen_case(rng, ctx):
 def run_case(case, ctx):
     p = case["p"]
     if case["kind"] == "pair":
-        e1, e2 = mk_event(case["e1"]), mk_event(case["e2"])
+        e1, e2 = _mk(case["e1"]), _mk(case["e2"])
         t1, t2 = _t(e1), _t(e2)
         pu = _pulse_us(p)
         _, _, viols, _ = MON["heartbeat_merge"].judge((e1, e2, p))
         sig = ("pair", t1[2] == t2[2], sgn(t2[0] - t1[0]), sgn(t2[0] - (t1[0] + t1[1] + pu)), sgn(t1[1]),
                sgn(t2[0] + t2[1] - t1[0] - t1[1]), pu == 0)
         return viols, dict(sig=sig, nontrivial=t1[2] == t2[2])
-    events = [mk_event(s) for s in case["events"]]
+    events = [_mk(s) for s in case["events"]]
     ins = [_t(e) for e in events]
     pu = _pulse_us(p)
     result, exc, viols, _ = MON["heartbeat_reduce"].judge((events, p))
